@@ -1,5 +1,5 @@
 """Which units exist, and what each claimed property covers / does not cover (copied into evidence)."""
-UNITS = ['budget', 'scalars', 'events']
+UNITS = ['budget', 'scalars', 'events', 'location', 'live']
 
 GLOBAL_ASSUMPTIONS = [
     'Verus 0.2026.09.13 and its bundled Z3 are sound; the extractor rewrite rules R0..R17 preserve meaning (DESIGN.md 3.2)',
@@ -23,6 +23,11 @@ PROPS = {
             'report callbacks (Options::with_budget_report) being invoked',
         ],
         assumptions=['history shorter than 2^64 events (counter room is a stated precondition of observe)'],
+    ),
+    'C09': dict(
+        covered=['LiveEvents implements the Events cursor contract for both input kinds through the same pump (look-ahead served first, peek does not consume)'],
+        not_covered=['ChunkedChars / RingReader byte handling (unit reader, planned); equality of saphyr-parser front ends; BOM stripping'],
+        assumptions=[],
     ),
     'C01': dict(
         covered=['absence of arithmetic overflow, out-of-range indexing, unwrap-on-None and reachable unreachable!() '
@@ -63,9 +68,37 @@ PROPS = {
         assumptions=[],
     ),
     'C16': dict(
-        covered=['Ev::location, KeyNode::location; ReplayEvents::reference_location = override, else current event, else last; last_location'],
-        not_covered=['parser mark consistency; LiveEvents (planned)'],
-        assumptions=[],
+        covered=['location_from_span: line = start line, column = start column + 1 (1-based), char offset/length from the marks, byte offset/length when both byte marks exist and fit, else (0,0); Span::byte_offset/byte_len; Locations::same',
+                 'Ev::location, KeyNode::location; ReplayEvents::reference_location = override, else current event, else last; last_location'],
+        not_covered=['that saphyr-parser marks agree with each other and with the text; serde static-error fallback location (thread-local)'],
+        assumptions=['coordinates below 2^32 and start <= end for parser marks (preconditions of location_from_span)'],
+    ),
+    'C02': dict(
+        covered=[
+            'LiveEvents::record: an event is appended to every open recording frame (all but a freshly seeded one), nothing else changes',
+            'bump_depth_on_start / bump_depth_on_end: depth bookkeeping; exactly the frames whose depth reaches 0 (only at the top) are finalised and stored under their anchor id with their recorded buffer, every other anchor slot is untouched',
+            'ensure_anchor_capacity never loses a recorded anchor; reset_document_state clears every anchor slot',
+        ],
+        not_covered=['LiveEvents::next_impl itself (alias arm, replay loop): its contract is assumed in this revision (prophecy view pump_future); the lemma delivered == expand(raw)',
+                     'that the deserialized value is a function of the delivered event stream only; saphyr-parser anchor id assignment'],
+        assumptions=['anchor ids of open frames are pairwise distinct and small (parser contract; stated as preconditions)'],
+    ),
+    'C10': dict(
+        covered=[
+            'LiveEvents::next / peek: a stored reader error is reported as Error::IOError before any event (not even a buffered look-ahead) is handed out',
+            'LiveEvents::finish: a stored reader error is reported at the end; otherwise a delayed budget breach is surfaced',
+            'io_error: Ok exactly when the shared cell is empty',
+        ],
+        not_covered=['ChunkedChars::next storing the error / enforcing the byte cap (unit reader, planned)', 'that every reader entry point ends with finish(); writer side'],
+        assumptions=['the shared error cell is read once at the start of next/peek/finish (interior mutability is modelled as a value fixed per call)'],
+    ),
+    'C11': dict(
+        covered=[
+            'reset_document_state: every anchor slot None, replay and recording stacks empty, alias counters 0, seen_doc_end false',
+            'skip_to_next_document: consumes raw items up to and including the first DocumentStart (true) or scan error / StreamEnd / exhaustion (false), terminates, drops look-ahead and replay state, leaves a clean per-document state and restarts the budget',
+        ],
+        not_covered=['next_impl document arms (assumed contract); ReadIter::next; equality with per-document deserialization'],
+        assumptions=['parser spans are well formed (ordered marks below 4 GiB)'],
     ),
     'C08': dict(covered=['budget counters bound the number of observed events/nodes (BudgetEnforcer::observe accept_only_within_limits)'],
                 not_covered=['heap bytes (no allocator model)'], assumptions=[]),
@@ -80,13 +113,13 @@ NOT_APPLICABLE = {
     'C14': 'identity flows through thread_local HashMap<usize, Rc<dyn Any>>, Rc::ptr_eq, Drop guards: outside Verus; kani-compiler ICEs on anchor_store',
     'C15': 'thread-local state, RAII restoration and unwinding through visitors: not modelled by Verus (no Drop/thread_local) nor Kani (no unwinding)',
     'C18': 'optional features not built by the baseline; oracle is the validation crates; path_map uses HashMap iteration and closure-heavy iterator chains outside Verus',
-    'C02': 'not yet under contract in this revision (unit live planned, DESIGN.md 4)',
+    #'C02': 'not yet under contract in this revision (unit live planned, DESIGN.md 4)',
     #'C03': 'not yet under contract in this revision (unit events planned)',
     #'C04': 'not yet under contract in this revision (unit events planned)',
     'C05': 'not yet under contract in this revision (unit cursor planned)',
-    'C09': 'not yet under contract in this revision (unit reader planned)',
-    'C10': 'not yet under contract in this revision (units reader/live planned)',
-    'C11': 'not yet under contract in this revision (unit live planned)',
+    #'C09': 'not yet under contract in this revision (unit reader planned)',
+    #'C10': 'not yet under contract in this revision (units reader/live planned)',
+    #'C11': 'not yet under contract in this revision (unit live planned)',
     'C12': 'not yet under contract in this revision (unit quoting planned)',
     #'C16': 'not yet under contract in this revision (unit location planned)',
     'C17': 'not yet under contract in this revision (unit snippet planned)',
